@@ -1,6 +1,7 @@
 package main
 
 import (
+	"go/token"
 	"encoding/json"
 	"flag"
 	"fmt"
@@ -325,6 +326,14 @@ func (e *Engine) runTargets(ts []target, mode string) *checkResult {
 		if err := fx.run(); err != nil {
 			res.engineErrs = append(res.engineErrs, fmt.Sprintf("%s: %v", name, err))
 			continue
+		}
+		if fx.con != nil {
+			for ck := range fx.con.CallPre {
+				if !fx.seenCallPre[ck] {
+					// the call the clause is about is gone: that is a failure of the clause, not a reason to drop it
+					fx.oblige("callpre", ck+".call-exists", tFalse, "the call "+ck+" named by a callpre clause exists in the function", token.NoPos)
+				}
+			}
 		}
 		for _, o := range fx.obls {
 			if len(o.Props) == 0 {
